@@ -97,9 +97,11 @@ SecondKeys == {Key(2, "JsonWebKey2020", {"authentication", "keyAgreement"}, "jwk
                Key(2, "Ed25519VerificationKey2018", {"assertionMethod"}, "b58"),
                Key(2, "Bls12381G2Key2020", {}, "jwk")}
 
+\* (keyCtx: the transformer is made with the default contexts of the key types or with a map of the caller's - the contexts
+\* listed are then the caller's, everything else - material conversion included - is as before)
 KeyCases ==
-    {[kind |-> "keys", keys |-> <<k>>, base |-> b, methodCtx |-> m, services |-> s] :
-        k \in {x \in KeyVariants(1) : ValidKey(x)}, b \in BOOLEAN, m \in {FALSE}, s \in {0}}
+    {[kind |-> "keys", keys |-> <<k>>, base |-> b, methodCtx |-> m, services |-> s, keyCtx |-> kc] :
+        k \in {x \in KeyVariants(1) : ValidKey(x)}, b \in BOOLEAN, m \in {FALSE}, s \in {0}, kc \in {"default", "custom"}}
     \cup {[kind |-> "keys", keys |-> <<k, k2>>, base |-> b, methodCtx |-> m, services |-> s] :
         k \in {x \in KeyVariants(1) : ValidKey(x) /\ Cardinality(x.pp) <= 1}, k2 \in SecondKeys,
         b \in BOOLEAN, m \in BOOLEAN, s \in {0, 2}}
